@@ -26,6 +26,7 @@ type LoopSpec struct {
 	Steps     []Clause // checked on every edge that ends an iteration (back edges and loop exits); iter(e) = e at iteration start
 	Decreases CExpr
 	Modifies  []CExpr // optional explicit loop frame
+	Staged    bool    // invariant k is proved preserved from invariants 1..k only (incremental strengthening)
 }
 
 type Contract struct {
@@ -51,6 +52,7 @@ type Contract struct {
 	Splits   []SplitSpec // case splits applied to every ensures obligation
 	Protects []CExpr     // objects whose fields survive every havoc inside this function (ownership assumption)
 	PureIf   CExpr       // when this holds in the pre-state the call modifies nothing (frame is conditional)
+	PureMods []CExpr     // ... except these targets (pureifmods): the frame under PureIf
 	Loops    map[int]*LoopSpec
 	Props    []string // property ids that own this function's obligations (informational)
 }
@@ -122,7 +124,7 @@ var clauseKeywords = map[string]bool{
 	"ghost": true, "spec": true, "global-invariant": true, "func": true, "extern": true, "iface": true,
 	"requires": true, "ensures": true, "modifies": true, "pure": true, "trusted": true, "inline": true,
 	"noinline": true, "abstractfloat": true, "loop": true, "invariant": true, "decreases": true, "lemma": true, "assume": true,
-	"show": true, "props": true, "loopmodifies": true, "split": true, "pureif": true, "immutable": true, "protects": true, "elemptr": true, "step": true, "panics": true, "allow-global-write": true, "traced": true, "callsite": true,
+	"show": true, "props": true, "loopmodifies": true, "split": true, "pureif": true, "pureifmods": true, "immutable": true, "protects": true, "elemptr": true, "step": true, "panics": true, "allow-global-write": true, "traced": true, "callsite": true,
 }
 
 // logical lines: keyword + rest (continuations joined)
@@ -445,6 +447,17 @@ func (cs *Contracts) LoadFile(path, pkgPath string) error {
 				return fail(l, "%v", err)
 			}
 			curLoop.Decreases = e
+		case "pureifmods":
+			if cur == nil {
+				return fail(l, "pureifmods outside function")
+			}
+			for _, part := range splitTop(l.rest) {
+				e, err := ParseCExpr(part)
+				if err != nil {
+					return fail(l, "%v", err)
+				}
+				cur.PureMods = append(cur.PureMods, e)
+			}
 		case "modifies", "loopmodifies":
 			if cur == nil {
 				return fail(l, "modifies outside function")
@@ -526,12 +539,12 @@ func (cs *Contracts) LoadFile(path, pkgPath string) error {
 			if cur == nil {
 				return fail(l, "loop outside function")
 			}
-			m := regexp.MustCompile(`^(\d+)\s*(?:\(([^)]*)\))?$`).FindStringSubmatch(l.rest)
+			m := regexp.MustCompile(`^(\d+)\s*(?:\(([^)]*)\))?\s*(staged)?$`).FindStringSubmatch(l.rest)
 			if m == nil {
 				return fail(l, "bad loop header %q", l.rest)
 			}
 			n, _ := strconv.Atoi(m[1])
-			curLoop = &LoopSpec{Ordinal: n, Vars: namesOf(m[2])}
+			curLoop = &LoopSpec{Ordinal: n, Vars: namesOf(m[2]), Staged: m[3] != ""}
 			cur.Loops[n] = curLoop
 		}
 	}
